@@ -9,7 +9,7 @@ From Coq Require Import List NArith Bool.
 From XmlRs Require Import Base.CPred Spec.XPathSyntax.
 From XmlRs Require Import Model.XPathAst Model.XDoc Model.XPathEval Model.XPathAstAbs Model.ParseActionsXPath.
 From XmlRs Require Import Proofs.XPathParseMain Proofs.XPathCanon Proofs.XPathAstShaped Proofs.XPathParseShaped
-  Proofs.XPathAbsEval Proofs.XPathAbsInv Proofs.XPathSpelling.
+  Proofs.XPathAbsEval Proofs.XPathAbsInv Proofs.XPathSpelling Proofs.XPathSpellingLight.
 Import ListNotations.
 
 Inductive qresult :=
@@ -94,4 +94,28 @@ Corollary spelling_irrelevant_fails_proof : forall doc bind a sp1 sp2,
 Proof.
   intros doc bind a sp1 sp2 H1 H2 N1 N2 Hinv Hns Hx.
   split; intros H v E; apply (H v); apply (spelling_irrelevant_ok_proof doc bind a sp1 sp2 H1 H2 N1 N2 Hinv Hns Hx v); exact E.
+Qed.
+
+(** ** everything except [//]: equal results, errors included, on every document *)
+
+(** white space between tokens (and the choice of the quote of a literal) is irrelevant: no hypothesis *)
+Theorem white_space_irrelevant_proof : forall doc bind (a : xexpr) (w1 w2 : wtree),
+  wfb a = true -> no_fname_case a = true -> ws_ok w1 = true -> ws_ok w2 = true ->
+  query_model doc bind (spell_surface a w1) = query_model doc bind (spell_surface a w2).
+Proof.
+  intros doc bind a w1 w2 Hwf Hn H1 H2.
+  rewrite (query_model_spelled doc bind a w1 Hwf Hn H1), (query_model_spelled doc bind a w2 Hwf Hn H2). reflexivity.
+Qed.
+
+(** parentheses, [@], the omitted axis, [.], [..], [n] against [position() = n], white space *)
+Theorem spelling_irrelevant_light_proof : forall doc bind a sp1 sp2,
+  ok_spelling a sp1 -> ok_spelling a sp2 ->
+  no_fname_case (surface sp1) = true -> no_fname_case (surface sp2) = true ->
+  lnorm (surface sp1) = lnorm (surface sp2) -> ns_lookup bind None = None ->
+  query_model doc bind (spell a sp1) = query_model doc bind (spell a sp2).
+Proof.
+  intros doc bind a sp1 sp2 (W1 & _ & S1) (W2 & _ & S2) N1 N2 E Hns. unfold spell.
+  rewrite (query_model_spelled doc bind _ _ W1 N1 S1), (query_model_spelled doc bind _ _ W2 N2 S2).
+  rewrite (xeval_lnorm doc bind Hns (surface sp1) doc_root (ctx_of bind) eq_refl).
+  rewrite (xeval_lnorm doc bind Hns (surface sp2) doc_root (ctx_of bind) eq_refl). rewrite E. reflexivity.
 Qed.
